@@ -42,6 +42,11 @@ ALLOWED_DESTRUCTURE = {
 }
 
 
+# COPY's expansion of its message set, as written in mbox.Mailbox.copy (the matcher compares canonical forms)
+_COPY_EXPANSION = "if uid_command:\n    uid_list = sequence_set_to_list(clip_sequence_set(msg_set, uid_max), uid_max, uid_command)\n    msg_idxs = []\n    for uid in uid_list:\n        if uid in self._uid_to_idx:\n            msg_idx = self._uid_to_idx[uid] + 1\n            msg_idxs.append(msg_idx)\nelse:\n    msg_idxs = sequence_set_to_list(msg_set, seq_max)"
+
+_COPY_EXPANSION_UNCLIPPED = _COPY_EXPANSION.replace("clip_sequence_set(msg_set, uid_max)", "msg_set")
+
 def _destructures(fi):
     """Loops `for elt in <x>` whose body tests elt == '*' and isinstance(elt, tuple|int)."""
     out = []
@@ -105,7 +110,7 @@ def r15_3(ctx):
         ),
         "mbox.Mailbox.copy": (
             ["max_msg_key = self.msg_keys[-1]", "uid_vv, uid_max = self.get_uid_from_msg(max_msg_key)", "seq_max = len(self.msg_keys)",
-             "if uid_command:\n    uid_list = sequence_set_to_list(..., uid_max, uid_command)\n    ...\nelse:\n    msg_idxs = sequence_set_to_list(msg_set, seq_max)"],
+             (_COPY_EXPANSION, _COPY_EXPANSION_UNCLIPPED)],
             "UID COPY expands against the UID of the last message, COPY against the message count",
         ),
         "search.IMAPSearch._msg_set_numbers": (
@@ -120,7 +125,7 @@ def r15_3(ctx):
             continue
         pats, what = expected[fi.key]
         pm = pm_of(p, fi)
-        missing = [x for x in pats if not pm.has(x)]
+        missing = [x for x in pats if not (any(pm.has(y) for y in x) if isinstance(x, tuple) else pm.has(x))]
         # the set itself is handed over raw, or cut down by the clip helper against the *same* maximum (the helper replaces
         # `*` by its own maximum, so a different one would change what `*` denotes)
         a0 = c.args[0] if c.args else None
@@ -135,7 +140,7 @@ def r15_3(ctx):
         if not missing:
             ctx.ok("R15.3", where(fi), what)
         else:
-            ctx.bad("R15.3", fi.module, fi.qual, f"{fi.name}: seq_max argument of sequence_set_to_list", f"seq_max passed to the interpreter is not (last UID on the UID path / message count otherwise) - expected shape `{missing[0].splitlines()[0]}` not found; `*` and `n:*` then denote the wrong message", c.lineno)
+            ctx.bad("R15.3", fi.module, fi.qual, f"{fi.name}: seq_max argument of sequence_set_to_list", f"seq_max passed to the interpreter is not (last UID on the UID path / message count otherwise) - expected shape `{(missing[0][0] if isinstance(missing[0], tuple) else missing[0]).splitlines()[0]}` not found; `*` and `n:*` then denote the wrong message", c.lineno)
     # the search helper's callers pass the context maxima (which Mailbox.search sets: C14 R14.4)
     sc = p.cls("IMAPSearch")
     for m, want in (("_match_uid", "self.ctx.uid() in self._msg_set_numbers(self.ctx.uid_max)"), ("_match_message_set", "self.ctx.msg_number in self._msg_set_numbers(self.ctx.seq_max)")):
@@ -223,7 +228,7 @@ def r15_4(ctx):
     else:
         ctx.bad("R15.4", ms.module, ms.qual, "[self._uid_to_idx[uid] + 1 for uid in msgs if uid in self._uid_to_idx]", "UID sets are no longer mapped through the UID table with unknown UIDs skipped", ms.node.lineno)
     cp = p.func("mbox.Mailbox.copy")
-    if pm_of(p, cp).has("msg_idxs = []\nfor uid in uid_list:\n    if uid in self._uid_to_idx:\n        msg_idx = self._uid_to_idx[uid] + 1\n        msg_idxs.append(msg_idx)"):
+    if pm_of(p, cp).has(_COPY_EXPANSION) or pm_of(p, cp).has(_COPY_EXPANSION_UNCLIPPED):
         ctx.ok("R15.4", where(cp), "COPY: UID -> sequence number mapping skips unknown UIDs (+1)")
     else:
         ctx.bad("R15.4", cp.module, cp.qual, "if uid in self._uid_to_idx: msg_idx = self._uid_to_idx[uid] + 1", "UID COPY no longer maps its set through the UID table", cp.node.lineno)
